@@ -251,7 +251,7 @@ impl WebRtcTransport {
                 opening::WebRtcEvent::Transmit {
                     destination,
                     datagram,
-                } =>
+                } => {
                     if let Err(error) =
                         connection.socket().try_send_to(&datagram, destination, addrs.local.ip())
                     {
@@ -269,7 +269,8 @@ impl WebRtcTransport {
                                 "failed to send datagram",
                             );
                         }
-                    },
+                    }
+                }
                 opening::WebRtcEvent::ConnectionClosed => return ConnectionEvent::ConnectionClosed,
                 opening::WebRtcEvent::ConnectionOpened { peer, endpoint } => {
                     return ConnectionEvent::ConnectionEstablished { peer, endpoint };
